@@ -76,6 +76,7 @@ PInit(k) ==
    ocw |-> k.ocw0, osw |-> [s \in Sid |-> 0], iws |-> k.osw0, mfs |-> k.mfs0, psets |-> <<>>,
    rcvd |-> [s \in Sid |-> 0], sHdr |-> [s \in Sid |-> FALSE], hst |-> [s \in Sid |-> FALSE],
    mine |-> [s \in Sid |-> TRUE],
+   hclosed |-> [s \in Sid |-> FALSE],   \* the handler closed the request body (Request.Body.Close)
    compliant |-> TRUE,     \* the client has never sent DATA beyond a window it held
    stim |-> NoStim, got |-> {}, acks |-> 0, pongs |-> {}, hold |-> E0,
    dead |-> FALSE, viol |-> {}]
@@ -162,10 +163,13 @@ PData(p, e) ==
     ELSE IF p.cl[s] >= 0 /\ p.body[s] + d > p.cl[s] THEN   \* 8.1.2.6
       Begin(CloseP(q, s, "srst"), Stim(e, "open-overcl", SErr(s, PROTOCOL)))
     ELSE
+      \* once the application has closed the body the server may refuse further DATA by
+      \* resetting the stream (5.4.2; STREAM_CLOSED is what this server uses)
       Begin([q EXCEPT !.sw[s] = @ - L, !.held[s] = @ + d, !.body[s] = @ + d,
                       !.pend[s] = IF d > 0 THEN Append(@, [t |-> e.first, n |-> d]) ELSE @,
                       !.ph[s] = IF e.es THEN "hcr" ELSE "open"],
-            Stim(e, "open", {OK}))
+            IF p.hclosed[s] THEN Stim(e, "open-bodyclosed", {OK, RS(s, STREAMCLOSED), RS(s, CANCEL), RS(s, NOERR)})
+            ELSE Stim(e, "open", {OK}))
   ELSE IF st = "hcr" THEN
     Begin(CloseP(q, s, "srst"), Stim(e, "hcr", SErr(s, STREAMCLOSED) \cup over))
   ELSE IF st = "hcl" THEN Begin(q, [Stim(e, "hcl", {OK}) EXCEPT !.gray = TRUE])
@@ -248,7 +252,7 @@ PClient(p, e) ==
 \* a handler command (read k / write n / headers / return / close body)
 PHcmd(p, e) ==
   IF p.dead THEN p
-  ELSE Begin(p, [k |-> "h-" \o e.op, s |-> e.s, allowed |-> {OK}, gray |-> FALSE, start |-> 0,
+  ELSE Begin(IF e.op = "closebody" /\ e.s \in Sid THEN [p EXCEPT !.hclosed[e.s] = TRUE] ELSE p, [k |-> "h-" \o e.op, s |-> e.s, allowed |-> {OK}, gray |-> FALSE, start |-> 0,
                  ack |-> "", ping |-> 0, state |-> Ph(p, e.s)])
 
 (***************************************************************************)
@@ -288,7 +292,7 @@ PSHeaders(p, e) ==
 PSRst(p, e) ==
   LET s == e.s IN
   \* RST_STREAM for a stream the client has not opened does not use up the identifier
-  IF s \notin Sid \/ Ph(p, s) = "idle" THEN [p EXCEPT !.got = @ \cup {RS(s, e.code)}]
+  IF s \notin Sid \/ p.ph[s] = "idle" THEN [p EXCEPT !.got = @ \cup {RS(s, e.code)}]
   \* 8.1: after a complete response the server may ask the client to stop sending the
   \* request with RST_STREAM(NO_ERROR)
   ELSE IF p.ph[s] = "hcl" /\ e.code = NOERR THEN CloseP(p, s, "srst")
